@@ -189,6 +189,24 @@ func init() {
 			return out
 		},
 		Tune: func(in *exec.Instance, tier string) { in.Redirect = map[string]string{gfMul: "utils:VPGFMulSummary"} }})
+	reg(&Oblig{ID: "RS-conc", Pkg: "utils", Func: "VP_RS_concurrent", Props: []string{"C16"},
+		Desc:  "two goroutines encode on one fresh encoder at the same time (both need uncached generator polynomials), run under the schedule where every Unlock is a preemption point: both results and a later call have zero syndromes; no panic, deadlock or leaked goroutine",
+		Real:  []string{"utils.NewReedSolomonEncoder", "(*utils.ReedSolomonEncoder).getPolynomial", "(*utils.ReedSolomonEncoder).Encode", "sync.Mutex (owner model)"},
+		Stubs: []string{"(*GaloisField).Multiply summarised by the reference product", "ONE schedule class, not all interleavings: goroutines are switched at channel operations and at every Mutex.Unlock (round robin); preemption inside a critical section or between unlocked instructions is not explored"},
+		Bound: "fields GF(256)/0x11D base 0 and GF(64)/0x43 base 1; (e1, e2) in {(2,3), (3,2), (2,2)}; 2 + 1 symbolic data symbols",
+		Configs: func(tier string, seed int64) []map[string]int {
+			var out []map[string]int
+			for _, f := range [][3]int{{0x11D, 256, 0}, {0x43, 64, 1}} {
+				for _, e := range [][2]int{{2, 3}, {3, 2}, {2, 2}} {
+					out = append(out, map[string]int{"pp": f[0], "size": f[1], "base": f[2], "e1": e[0], "e2": e[1]})
+				}
+			}
+			return out
+		},
+		Tune: func(in *exec.Instance, tier string) {
+			in.Redirect = map[string]string{gfMul: "utils:VPGFMulSummary"}
+			in.YieldAtUnlock = true
+		}})
 	for _, pk := range []string{"qr", "datamatrix"} {
 		reg(&Oblig{ID: "RS-shared-" + pk, Pkg: pk, Func: "VP_RS_shared", Props: []string{"C17", "C15"}, Desc: "the package-level shared encoder: right field, zero syndromes",
 			Stubs: []string{"(*GaloisField).Multiply summarised by the reference product"}, Bound: "k = 2, e = 3, d0 in {0, 5}",
@@ -249,5 +267,5 @@ func init() {
 		Real:  []string{"(*utils.GFPoly).Divide", "(*utils.GFPoly).GetCoefficient", "(*utils.GaloisField).Invers", "utils.NewMonominalPoly"},
 		Stubs: append(polyStubs, "divisor assumed non-zero (division by the zero polynomial does not terminate and is outside the documented use)"),
 		Bound: "as POLY-ops", Configs: polyCfgs(true),
-		Tune:  func(in *exec.Instance, tier string) { in.Redirect = map[string]string{gfMul: "utils:VPGFMulSummary"} }})
+		Tune: func(in *exec.Instance, tier string) { in.Redirect = map[string]string{gfMul: "utils:VPGFMulSummary"} }})
 }
